@@ -91,13 +91,13 @@ func runC10(p *Prog, r *Report) {
 	// ---- lock discipline ----
 	must := NewLockInfo(p, true)
 	may := NewLockInfo(p, false)
-	na := ruleLocked(p, r, must, "locked.pendingOps", pendingOps, "pendingMu", nil)
-	nb := ruleLocked(p, r, must, "locked.closedSend", closedSend, "sendMu", nil)
+	na := ruleLocked(p, r, must, lockRule{Key: "locked.pendingOps", Field: pendingOps, Mu: "pendingMu"})
+	nb := ruleLocked(p, r, must, lockRule{Key: "locked.closedSend", Field: closedSend, Mu: "sendMu"})
 	r.Floor("locked-accesses", na+nb, 9)
 	ruleNotHeldAtCalls(p, r, may, "lockorder.sendMu-under-pendingMu", "R-LOCKORDER", func(in ssa.Instruction) bool {
 		op, key := lockOp(callCommon(in))
-		return op == "lock" && (key == "sendMu" || hasSuffix(key, ".sendMu"))
-	}, []string{"pendingMu"}, "acquiring sendMu")
+		return op == "lock" && lockKind(key) == "clientProcessRunner.sendMu"
+	}, func(k string) bool { return lockKind(k) == "clientProcessRunner.pendingMu" }, "acquiring sendMu")
 
 	sendRequest := p.Func(pkgCC, "clientProcessRunner", "sendRequest")
 	consume := p.Func(pkgCC, "clientProcessRunner", "consumeOutput")
@@ -276,7 +276,7 @@ func runC10(p *Prog, r *Report) {
 		r.Check(okT, "drain.terminated-on-error", "R-ORDER", p.Pos(drain.Pos()), "terminated is set before aborting", "a fatal read error does not mark the client as terminated before aborting it")
 		var lockI ssa.Instruction
 		eachInstr(drain, func(in ssa.Instruction) {
-			if op, key := lockOp(callCommon(in)); op == "lock" && hasSuffix(key, "pendingMu") {
+			if op, key := lockOp(callCommon(in)); op == "lock" && lockKind(key) == "clientProcessRunner.pendingMu" {
 				if _, isDefer := in.(*ssa.Defer); !isDefer && lockI == nil {
 					lockI = in
 				}
